@@ -19,7 +19,14 @@ def describe(e):
 
 
 def run(ctx):
-    run_polyeval(ctx)
+    fam = None
+    if ctx.replay:
+        fam = json.load(open(ctx.replay)).get('family')
+    if fam in (None, 'polyeval'):
+        run_polyeval(ctx)
+    if fam in (None, 'composite'):
+        from checks.composite import run_composite
+        run_composite(ctx)
 
 
 def run_polyeval(ctx, frame=False):
@@ -32,7 +39,6 @@ def run_polyeval(ctx, frame=False):
         "bgv: t=97, 16 slots, six 42..56-bit moduli, standard and scale-invariant mode; ckks: 8 slots sparse on N=2^10 (standard and conjugate-invariant ring), six moduli, scale 2^45",
         "TLC enumerates every shape: degree 0..15, monomial / Chebyshev (interval [-1,1]) basis, general / odd / even with the parity flags set, zeroed leading and linear coefficient, single polynomial / two-polynomial vector with a third of the slots unmapped / precomputed power basis, input level one below / exactly / above the documented depth, default and non-default target scale",
         "coefficients are seeded: uniform mod t (bgv), integers in [-3,3] (ckks); ckks inputs are half-integers in [-1,1] so the exact value is a dyadic rational TLC computes; tolerance 2^-10",
-        "composite circuits (sign, step, inverse, mod 1) are not driven",
     ]
     if ctx.replay:
         rp = json.load(open(ctx.replay))
